@@ -14,15 +14,7 @@ Theorem C12_csd_fields : forall d : list N, is_csd d ->
   v1_device_size_multiplier d = C_SIZE_MULT d /\
   v2_device_size d = C_SIZE_v2 d /\
   erase_single_block_enabled_field d = (ERASE_BLK_EN d =? 1).
-Proof.
-  intros d H. repeat split.
-  - exact (csd_ver_ok d H).
-  - exact (read_block_length_ok d H).
-  - exact (v1_device_size_ok d H).
-  - exact (v1_device_size_multiplier_ok d H).
-  - exact (v2_device_size_ok d H).
-  - exact (erase_single_ok d H).
-Qed.
+Proof. exact csd_fields_all. Qed.
 
 (* ---- capacity formulas = the specification's, for every register, without panics:
    version 1.0: (C_SIZE+1) * 2^(C_SIZE_MULT+2) * 2^READ_BL_LEN bytes, blocks = bytes / 512;
@@ -31,12 +23,12 @@ Qed.
 Theorem C12_capacity_v1 : forall d : list N, is_csd d ->
   v1_capacity_bytes d = Ok ((C_SIZE_v1 d + 1) * 2 ^ (C_SIZE_MULT d + 2) * 2 ^ READ_BL_LEN d) /\
   v1_capacity_blocks d = Ok ((C_SIZE_v1 d + 1) * 2 ^ (C_SIZE_MULT d + 2) * 2 ^ READ_BL_LEN d / 512).
-Proof. intros d H. split; [exact (v1_capacity_bytes_ok d H)|exact (v1_capacity_blocks_ok d H)]. Qed.
+Proof. exact capacity_v1_all. Qed.
 
 Theorem C12_capacity_v2 : forall d : list N, is_csd d ->
   v2_capacity_bytes d = Ok ((C_SIZE_v2 d + 1) * 524288) /\
   v2_capacity_blocks d = Ok (N.min ((C_SIZE_v2 d + 1) * 524288 / 512) (2 ^ 32 - 1)).
-Proof. intros d H. split; [exact (v2_capacity_bytes_ok d H)|exact (v2_capacity_blocks_ok d H)]. Qed.
+Proof. exact capacity_v2_all. Qed.
 
 (* the hypotheses are satisfiable: the register of the crate's own test *)
 Example C12_capacity_example :
